@@ -5,6 +5,7 @@ import (
 	"fmt"
 	"net"
 	"net/http"
+	"reflect"
 	"strings"
 	"sync"
 	"time"
@@ -95,6 +96,24 @@ func (l *oneShotListener) Addr() net.Addr { return l.addr }
 // framing over an in-memory connection: b serves through mixer/websocket's http handler,
 // a upgrades its end with the websocket client and serves it with the websocket protocol
 // wrapper around the given sub-protocol.
+// wsHandler returns THE websocket handler of a peer for a sub-protocol: as in a real server, one handler (one
+// wrapped protocol function) accepts every connection of that peer.
+func wsHandler(b erpc.Peer, sub erpc.ProtoFunc) http.Handler {
+	k := wsKey{b, reflect.ValueOf(sub).Pointer()}
+	if h, ok := wsHandlers.Load(k); ok {
+		return h.(http.Handler)
+	}
+	h, _ := wsHandlers.LoadOrStore(k, websocket.NewServeHandler(b, nil, sub))
+	return h.(http.Handler)
+}
+
+type wsKey struct {
+	peer erpc.Peer
+	sub  uintptr
+}
+
+var wsHandlers sync.Map
+
 func ConnectWS(a, b erpc.Peer, sub erpc.ProtoFunc, prep func(ca, cb *memconn.Conn)) (*Link, error) {
 	ca, cb := memconn.NewPair()
 	if prep != nil {
@@ -103,7 +122,7 @@ func ConnectWS(a, b erpc.Peer, sub erpc.ProtoFunc, prep func(ca, cb *memconn.Con
 	l := &Link{CA: ca, CB: cb}
 	lis := &oneShotListener{c: make(chan net.Conn, 1), done: make(chan struct{}), addr: cb.LocalAddr()}
 	lis.c <- cb
-	srv := &http.Server{Handler: websocket.NewServeHandler(b, nil, sub)}
+	srv := &http.Server{Handler: wsHandler(b, sub)}
 	go srv.Serve(lis)
 	cfg, err := ws.NewConfig("ws://"+cb.LocalAddr().String()+"/", "ws://"+ca.LocalAddr().String()+"/")
 	if err != nil {
@@ -169,7 +188,7 @@ func ServeWSRaw(b erpc.Peer, sub erpc.ProtoFunc) (*RawWS, erpc.Session, error) {
 	ca, cb := memconn.NewPair()
 	lis := &oneShotListener{c: make(chan net.Conn, 1), done: make(chan struct{}), addr: cb.LocalAddr()}
 	lis.c <- cb
-	srv := &http.Server{Handler: websocket.NewServeHandler(b, nil, sub)}
+	srv := &http.Server{Handler: wsHandler(b, sub)}
 	go srv.Serve(lis)
 	defer lis.Close()
 	cfg, err := ws.NewConfig("ws://"+cb.LocalAddr().String()+"/", "ws://"+ca.LocalAddr().String()+"/")
